@@ -45,7 +45,7 @@ SCHEDS = [
     {"policy": "rr", "q": 3, "preempt": "line"},
     {"policy": "random", "p": 0.2, "preempt": "sync"},
 ]
-LENS = [0, 0, 1, 2, 243, 244, 245, 487, 488, 489, 732, 976, 1220, 2440]
+LENS = [0, 0, 1, 2, 11, 243, 244, 245, 255, 487, 488, 489, 499, 732, 976, 1220, 2440]
 MASKS = [0x01, 0x80, 0xFF, 0x40]
 CANON = [0, 1, 244]
 
